@@ -26,6 +26,7 @@ Operators
   chain-cmp      a OP x and x OP2 b  ->  a OP x OP2 b   (x call-free)
   extract-const  an int literal >= 10 inside a function  ->  a new module-level constant
   add-log        `logging.getLogger(__name__).debug("trace")` as first statement of a function (NOT canonical: an extra statement)
+  or-chain       x == a or x == b <-> x in (a, b) ; isinstance(x, A) or isinstance(x, B) <-> isinstance(x, (A, B))
   kw-args        f(a, b) for a call that resolves to exactly one module-level function / class of the package by name ->
                  keywords for the trailing positional arguments
 """
@@ -41,6 +42,9 @@ import subprocess
 import sys
 import tempfile
 from concurrent.futures import ThreadPoolExecutor
+
+sys.path.insert(0, os.path.dirname(os.path.dirname(os.path.abspath(__file__))))
+from a816lint import canonical as _canon  # noqa: E402  (only its or-chain helpers)
 
 PY = "/venv/bin/python"
 ARGS = sys.argv[1:]
@@ -150,6 +154,10 @@ def sites(tree: ast.Module, known_callables: dict[str, list[str]]):
                     and ast.dump(node.values[0].comparators[0]) == ast.dump(node.values[1].left) and pure(node.values[1].left) \
                     and all(isinstance(v.ops[0], (ast.Lt, ast.LtE, ast.Gt, ast.GtE, ast.Eq)) for v in node.values):
                 out.append((path, "chain-cmp", node.lineno, fn))
+            if isinstance(node, ast.BoolOp) and _canon.or_chain_compact(node) is not None:
+                out.append((path, "or-chain", node.lineno, fn))
+            if isinstance(node, (ast.Compare, ast.Call)) and _canon.or_chain_expand(node) is not None:
+                out.append((path, "or-chain", node.lineno, fn))
             if isinstance(node, ast.Constant) and type(node.value) is int and node.value >= 10:
                 out.append((path, "extract-const", node.lineno, fn))
             for f, blk in block_fields(node):
@@ -335,6 +343,9 @@ def transform(tree, path, op, rng, known_callables):
             while j < len(t.body) and ((isinstance(t.body[j], ast.ImportFrom) and t.body[j].module == "__future__") or (isinstance(t.body[j], ast.Expr) and isinstance(t.body[j].value, ast.Constant))):
                 j += 1
             t.body.insert(j, ast.Import([ast.alias("logging")]))
+    elif op == "or-chain":
+        new = _canon.or_chain_compact(node) if isinstance(node, ast.BoolOp) else _canon.or_chain_expand(node)
+        put(t, path, new)
     elif op == "kw-args":
         params = known_callables[node.func.id]
         k = rng.randint(1, len(node.args) - 1) if len(node.args) > 1 else 1
